@@ -5,6 +5,10 @@ pub const C03_TOL: f64 = 4e-14;
 
 fn c03_card(k: u8) -> Cardinal { match k { 0 => Cardinal::S, 1 => Cardinal::E, 2 => Cardinal::N, _ => Cardinal::W } }
 
+/// "offsets in [0, 1] up to rounding": the offsets are fractional parts of plane coordinates (magnitude <= 11, i.e. absolute
+/// rounding error of a few 2^-50) scaled by nside / 2, so the lower bound is -2^-48 * nside (3.6e-15 at depth 0, 1.9e-6 at depth 29)
+pub fn c03_lo(depth: u8) -> f64 { -((1u64 << depth) as f64) / ((1u64 << 48) as f64) }
+
 /// Native: every accessor of one cell through the public API (real proj / unproj). dxk, dyk in 1..=1023: offsets k/1024.
 #[cfg(not(kani))]
 pub fn p_c03_cell(depth: u8, h: u64, dxk: u32, dyk: u32) {
@@ -25,7 +29,7 @@ pub fn p_c03_cell(depth: u8, h: u64, dxk: u32, dyk: u32) {
   let (lon, lat) = layer.sph_coo(h, odx, ody);
   assert!(layer.hash(lon, lat) == h, "C03: sph_coo({}, {}, {}) at depth {} does not hash back to the cell", h, odx, ody, depth);
   let (h2, dx2, dy2) = layer.hash_with_dxdy(lon, lat);
-  assert!(h2 == h && dx2.is_finite() && dy2.is_finite() && dx2 >= -1e-9 && dx2 <= 1.0 && dy2 >= -1e-9 && dy2 <= 1.0, "C03: hash_with_dxdy of an interior position leaves the cell / offsets not in [0, 1]");
+  assert!(h2 == h && dx2.is_finite() && dy2.is_finite() && dx2 >= c03_lo(depth) && dx2 <= 1.0 && dy2 >= c03_lo(depth) && dy2 <= 1.0, "C03: hash_with_dxdy of an interior position leaves the cell / offsets not in [0, 1]");
   let (lon3, lat3) = layer.sph_coo(h2, dx2.max(0.0).min(0.9999999999999999), dy2.max(0.0).min(0.9999999999999999));
   let (x3, y3) = ref_proj(lon3, lat3);
   let (x1, y1) = ref_proj(lon, lat);
@@ -72,7 +76,7 @@ pub fn p_c03_point(depth: u8, lon: f64, lat: f64) {
   let layer = hp::nested::get_or_create(depth);
   let (h, dx, dy) = layer.hash_with_dxdy(lon, lat);
   assert!(h < spec_n_hash(depth), "C03: hash_with_dxdy out of range: depth {} lon {:e} lat {:e}", depth, lon, lat);
-  assert!(dx.is_finite() && dy.is_finite() && dx >= -1e-9 && dx <= 1.0 && dy >= -1e-9 && dy <= 1.0, "C03: offsets not in [0, 1]: depth {} lon {:e} ({:#x}) lat {:e} ({:#x}): {} {}", depth, lon, lon.to_bits(), lat, lat.to_bits(), dx, dy);
+  assert!(dx.is_finite() && dy.is_finite() && dx >= c03_lo(depth) && dx <= 1.0 && dy >= c03_lo(depth) && dy <= 1.0, "C03: offsets not in [0, 1]: depth {} lon {:e} ({:#x}) lat {:e} ({:#x}): {} {}", depth, lon, lon.to_bits(), lat, lat.to_bits(), dx, dy);
   let (x, y) = ref_proj(lon, lat);
   let e = ref_excess(depth, h, x, y);
   assert!(e <= C03_TOL, "C03: hash_with_dxdy returns a cell that does not contain the position: depth {} lon {:e} ({:#x}) lat {:e} ({:#x}) hash {} excess {:e}", depth, lon, lon.to_bits(), lat, lat.to_bits(), h, e);
